@@ -254,6 +254,9 @@ structure Ext where
   mapOrder : List (GoString × GoString) → List (GoString × GoString) := fun l => l
   /-- `fmt.Sprintf("%d", n)` -/
   fmtInt : Int → GoString := fun _ => []
+  /-- `ssh.ParseAuthorizedKey(bytes)`: the first key of the bytes (marshalled), its comment, its options, the bytes behind
+      its line, or an error when no line is a key -/
+  parseAuthorizedKey : GoString → GoString × GoString × List GoString × GoString × GoErr := fun _ => ([], [], [], [], some [])
   /-- `knownhosts.Normalize(address)` -/
   normalizeAddr : GoString → GoString := fun a => a
   /-- `bufio.NewScanner(file)`: the lines `Scan` / `Text` deliver for the file opened on this path (scanning stops silently
